@@ -3,6 +3,7 @@
 package internal
 
 import (
+    "bytes"
     "errors"
     "fmt"
     "strconv"
@@ -361,7 +362,15 @@ func (lex *lexer) AppendError(err error)  {
 }
 
 func (lex* lexer) Pos() ast.Position {
-    return ast.Position{Line: lex.line, Column: lex.ts - lex.lineStart + 1}
+    line, lineStart := lex.line, lex.lineStart
+    if lex.ts < lineStart {
+        // Keyword tokens swallow the whitespace that follows them, so the
+        // line counters may already be past the line the token started on.
+        // Walk back to the token's own line.
+        line -= bytes.Count(lex.data[lex.ts:lineStart], []byte{'\n'})
+        lineStart = bytes.LastIndexByte(lex.data[:lex.ts], '\n') + 1
+    }
+    return ast.Position{Line: line, Column: lex.ts - lineStart + 1}
 }
 
 func (lex* lexer) RecordPosition(n ast.Node, pos ast.Position) {
@@ -371,7 +380,13 @@ func (lex* lexer) RecordPosition(n ast.Node, pos ast.Position) {
 func (lex *lexer) LastDocstring() string {
     // If we've had more than one line since we recorded
     // the docstring, ignore it.
-    if lex.linesSinceDocstring > 1 {
+    lines := lex.linesSinceDocstring
+    if lex.ts < lex.te {
+        // Newlines inside the current token (the whitespace a keyword
+        // token swallows) come after the documented node has started.
+        lines -= bytes.Count(lex.data[lex.ts:lex.te], []byte{'\n'})
+    }
+    if lines > 1 {
         return ""
     }
 
